@@ -2,18 +2,59 @@
 `driver`: JSON lines in, JSON lines out.  Every request is an object with an `op` field;
 the reply is the canonical result of the model (and, where useful, the spec) on it.
 No proof file and no Mathlib/Batteries module is imported here.
+Each property registers its ops in `PybtexModel/Drv/Cxx.lean` (`handlers`).
 -/
 import PybtexModel.Drv.Json
+import PybtexModel.Drv.C01
+import PybtexModel.Drv.C02
+import PybtexModel.Drv.C03
+import PybtexModel.Drv.C04
+import PybtexModel.Drv.C05
+import PybtexModel.Drv.C06
+import PybtexModel.Drv.C07
+import PybtexModel.Drv.C08
+import PybtexModel.Drv.C09
+import PybtexModel.Drv.C10
+import PybtexModel.Drv.C11
+import PybtexModel.Drv.C12
 import PybtexModel.Drv.C13
+import PybtexModel.Drv.C14
+import PybtexModel.Drv.C15
+import PybtexModel.Drv.C16
+import PybtexModel.Drv.C17
+import PybtexModel.Drv.C18
+import PybtexModel.Drv.C19
+import PybtexModel.Drv.C20
 open Lean Pybtex Pybtex.Drv
+
+def allHandlers : List (String × (Json → Except String Json)) :=
+  [("ping", fun j => do pure (obj [("pong", strToJson (← getStr j "s"))]))]
+  ++ C01.handlers
+  ++ C02.handlers
+  ++ C03.handlers
+  ++ C04.handlers
+  ++ C05.handlers
+  ++ C06.handlers
+  ++ C07.handlers
+  ++ C08.handlers
+  ++ C09.handlers
+  ++ C10.handlers
+  ++ C11.handlers
+  ++ C12.handlers
+  ++ C13.handlers
+  ++ C14.handlers
+  ++ C15.handlers
+  ++ C16.handlers
+  ++ C17.handlers
+  ++ C18.handlers
+  ++ C19.handlers
+  ++ C20.handlers
 
 def dispatch (j : Json) : Except String Json := do
   let op ← (← j.getObjVal? "op").getStr?
-  match op with
-  | "ping" => pure (obj [("pong", strToJson (← getStr j "s"))])
-  | "cimap" => C13.cimap j
-  | "ciset" => C13.ciset j
-  | _ => throw s!"unknown op {op}"
+  match allHandlers.lookup op with
+  | some h => h j
+  | none => throw s!"unknown op {op}"
 
 partial def loop (hin hout : IO.FS.Stream) : IO Unit := do
   let line ← hin.getLine
